@@ -2,6 +2,12 @@
 and the signature function that labels a failing case for known_findings.jsonl."""
 
 PROPS = {
+    'C06': {
+        'families': [('c06', 12, 120)],
+        'rule': 'writing sessions (open or resume-from-an-earlier-session, 1-3 puts, optional Finalize) over the option grid x {blockstore.OpenReadWrite on a real file with the verif write hook, storage.OpenReadableWritable on a recording in-memory file}; the REAL write trace is recorded and compared with the model\'s write list; for EVERY write boundary and every byte offset inside every write (sampled for writes longer than 24 bytes at quick tier) the crash image is built, reopened with the real library, queried (Has/Get of every acknowledged block, index contents), continued (one more put + Finalize) and the result decoded by the verifying block reader; plus the corpus construction of known finding D5; distinct = distinct script text',
+        'trusted': ['pwrite/ftruncate semantics as modelled by writeAt/truncate (zero-filled holes, zero-length write is a no-op); a torn write leaves a byte prefix'],
+        'assumptions': ['crash = any prefix of the issued writes with the last one cut at a byte boundary (no reordering, no sector-level tearing)'],
+    },
     'C12': {
         'families': [('c12', 80, 800)],
         'rule': 'random interleavings of {Put, Discard+reopen, Finalize+reopen, file snapshot} on one file ending in Finalize, with the final bytes compared with the uninterrupted session (specification layout of the log) x option configurations x {blockstore.OpenReadWrite on a real file, storage.OpenReadableWritable on an in-memory file}; reopen attempts with single-field mismatches (version, data padding, roots, root permutation, same set/different multiset) followed by a file snapshot that must equal the bytes before; distinct = distinct script text',
@@ -82,6 +88,15 @@ def signature(pid, script, I, S):
         if 'flip' in toks:
             return 'C02/corruption-not-reported'
         return 'C02/unsound-block-returned'
+    if pid == 'C06':
+        tr = toks.get('trace', '-').split(',')
+        n, k = len(tr), int(toks.get('k', '0'))
+        if toks.get('fin') == '1' and k in (n - 2, n - 1):
+            return 'C06/crash-after-index-written-before-header-valid'
+        idx = [i for i, x in enumerate(tr) if x.split(':')[-1] in ('8108', '8008')]
+        if toks.get('fin') == '1' and idx and k > idx[-1]:
+            return 'C06/crash-inside-index-write'
+        return 'C06/crash-in-open-or-put-phase'
     if pid == 'C12':
         if fam == 'reopen':
             return 'C12/reopen-verdict-differs'
